@@ -96,6 +96,11 @@ def instances(tier):
         for e in ("none", "tag"):
             for d in durs:
                 yield {"op": "group_by_until", "key": k, "elem": e, "dur": d}
+    # the stream of groups cut by take(n) while the groups handed out stay subscribed
+    for k in ("isA", "id"):
+        for n in (1, 2):
+            yield {"op": "group_by", "key": k, "elem": "none", "take": n}
+            yield {"op": "group_by_until", "key": k, "elem": "none", "dur": {"d": 15 if n == 1 else None, "ck": "N", "by": "all"}, "take": n}
     for pol in ("both", "first", "second"):
         for p in ("eqA", "neA", "T", "F", "int"):
             if q and pol != "both" and p not in ("eqA", "int"):
@@ -142,13 +147,18 @@ class GroupModel(L.Model):
     """A group is created by the first element of a key that has no live group; every element goes
     to the live group of its key; a group whose duration fires completes and is no longer live."""
 
-    def __init__(self, keyf, elemf, dur_of):
-        self.keyf, self.elemf, self.dur_of = keyf, elemf, dur_of
+    def __init__(self, keyf, elemf, dur_of, outer_take=None):
+        self.keyf, self.elemf, self.dur_of, self.outer_take = keyf, elemf, dur_of, outer_take
 
     def on_next(self, st, t, v):
         k = L.nv(self.keyf(v))
         j = st.x.get(("g", k))
         if j is None:
+            if self.outer_take is not None and st.x.get("opened", 0) >= self.outer_take:
+                # the stream of groups was cut by take(n): no further group reaches the subscriber, the element is dropped;
+                # groups handed out before stay alive and keep receiving their elements
+                return
+            st.x["opened"] = st.x.get("opened", 0) + 1
             j = st.open(t, key=k)
             st.x[("g", k)] = j
             d = self.dur_of(self.keyf(v))
@@ -207,9 +217,11 @@ def make_group(inst, alpha):
                 return env.cold("dur%d" % n[0], [(d, ck, 0 if ck == "N" else None)])
 
             op = ops.group_by_until(keyf, elemf, duration)
+        if inst.get("take"):
+            return src.pipe(op, ops.take(inst["take"]))
         return src.pipe(op)
 
-    return build, GroupModel(keyf, elemf, dur_of)
+    return build, GroupModel(keyf, elemf, dur_of, inst.get("take"))
 
 
 def horizon_for(tl):
@@ -333,7 +345,7 @@ def signature(inst, label):
         return f"{inst['op']}|{inst['pred']}|{label}"
     d = inst.get("dur")
     dshape = "" if d is None else ("|never" if d["d"] is None else "|expiring")
-    return f"{inst['op']}|keys={inst['key']}{dshape}|{label}"
+    return f"{inst['op']}|keys={inst['key']}{dshape}{'|outer-take' if inst.get('take') else ''}|{label}"
 
 
 def shard(part: core.Part, shard_i, nshards, tier, seed, deadline):
